@@ -75,6 +75,20 @@ var textCtors = []textCtor{
 }
 
 func content(n, pat int) []byte {
+	if pat == 4 {
+		const u = "Grüße ♪ 日本語 𝄞 é"
+		var out []byte
+		for len(out) < n {
+			for _, r := range u {
+				rb := []byte(string(r))
+				if len(out)+len(rb) > n {
+					return out
+				}
+				out = append(out, rb...)
+			}
+		}
+		return out
+	}
 	b := make([]byte, n)
 	for i := range b {
 		switch pat {
@@ -84,6 +98,10 @@ func content(n, pat int) []byte {
 			b[i] = 0xFF
 		case 2:
 			b[i] = byte(i)
+		case 4:
+			// valid multi-byte UTF-8 (2-, 3- and 4-byte sequences), cut at a rune boundary
+			const u = "Grüße ♪ 日本語 𝄞 é"
+			b[i] = u[i%len(u)]
 		default:
 			b[i] = "text"[i%4]
 		}
@@ -109,7 +127,7 @@ func texts(part, parts int) {
 	ls := lengths()
 	for li := part; li < len(ls); li += parts {
 		n := ls[li]
-		for pat := 0; pat < 4; pat++ {
+		for pat := 0; pat < 5; pat++ {
 			p := content(n, pat)
 			for _, tc := range textCtors {
 				ctx.Eval()
@@ -152,7 +170,7 @@ func texts(part, parts int) {
 // reuse: the same destination variable across several accessor calls (long,
 // short, medium, longer, empty-ish ...): each call must hand back its own data.
 func reuse() {
-	lens := []int{300, 5, 200, 1, 128, 127, 16384, 2, 20000, 3, 129}
+	lens := []int{300, 5, 200, 1, 128, 0, 127, 16384, 2, 20000, 0, 3, 129}
 	var dst []byte
 	var txt string
 	for round := 0; round < 2; round++ {
@@ -160,7 +178,7 @@ func reuse() {
 			p := content(n, 2+round)
 			ctx.Eval()
 			m := smf.MetaSequencerData(p)
-			if !m.GetMetaSeqData(&dst) || !bytes.Equal(dst, p) {
+			if n > 0 && (!m.GetMetaSeqData(&dst) || !bytes.Equal(dst, p)) {
 				report("accessor:MetaSequencerData:destination-reused", "MetaSequencerData", n, m, fmt.Sprintf("with a destination that held an earlier result, %d bytes came back for %d", len(dst), n))
 				return
 			}
